@@ -72,12 +72,14 @@ empty or starts with `/` -/
 def wfParts (p : Parts) : Bool :=
   wfNetloc p.netloc && (p.path == [] || p.path.head? == some '/')
 
-/-- additional demands of the suffix-aware theorems: the host has no `%` (CPython's
-`.hostname` does not lower-case after a `%`), no newline, and a bracketed host is made of hex
-digits and colons only (so that `is_special_host(parsed.hostname)` recognises it) -/
+/-- additional demands of the suffix-aware theorems: a plain host has no `%` (CPython's
+`.hostname` does not lower-case what follows a `%`), and a bracketed host is, once
+lower-cased, made of hex digits and colons only (so that `is_special_host(parsed.hostname)`
+recognises it: no zone id, no embedded IPv4) -/
 def wfHostSA (netloc : Str) : Bool :=
   match specHost netloc with
-  | '[' :: r => r.dropLast.contains ':' && r.dropLast.all (fun c => isHexDigit c || c == ':')
+  | '[' :: r =>
+    r.dropLast.contains ':' && (lower r.dropLast).all (fun c => isHexDigit c || c == ':')
   | h => noneOf ['%'] h
 
 /-- no `|` anywhere (the hypothesis of C12) -/
